@@ -454,6 +454,10 @@ func ErrorResponse(kind string, code int64) M {
 		m["lock"] = []any{}
 	case "CreateSchedule", "ReadSchedule":
 		m["schedule"] = []any{}
+	case "SearchPromises":
+		m["promises"], m["cursor"] = []any{}, []any{}
+	case "SearchSchedules":
+		m["schedules"], m["cursor"] = []any{}, []any{}
 	}
 	return m
 }
